@@ -8,11 +8,11 @@ demo=$(git status --porcelain | grep '^??' | awk '{print $2}' | grep -E '^(tests
 [ -z "$demo" ] && { echo "$P: no demo file"; exit 2; }
 name=$(basename $demo .rs)
 feat=""; grep -q "verif-hooks\|verif_hooks\|verif_synthetic" $demo && feat="--features verif-hooks"
-mkdir -p /tmp/mut/hold; 
+mkdir -p /tmp/mut/hold
 # (2) demo with change
 cargo test --offline $feat --test $name > $O/confirm_demo_with.log 2>&1; rc_with=$?
 # (3) demo without change
-git stash -q; cargo test --offline $feat --test $name > $O/confirm_demo_without.log 2>&1; rc_without=$?; git stash pop -q
+git diff > /tmp/mut/hold/$P.cur.diff; git apply -R /tmp/mut/hold/$P.cur.diff; cargo test --offline $feat --test $name > $O/confirm_demo_without.log 2>&1; rc_without=$?; git apply /tmp/mut/hold/$P.cur.diff
 # (1) suite with change (demo moved away)
 mv $demo /tmp/mut/hold/$P-$name.rs
 cargo test --workspace --no-fail-fast --offline > $O/confirm_suite.log 2>&1; rc_suite=$?
